@@ -1,5 +1,6 @@
 #!/bin/bash
 # usage: sweep.sh <tier> <parallel> <outdir> <seed>...   -- every check, each seed, <parallel> at a time, on a private clone of /repo
+# env IDS="C09 C10" restricts the checks
 # (the clone keeps a sweep independent of patches being tried on /repo); prints one line per run: id seed rc seconds
 TIER=$1; PAR=$2; OUT=$3; shift 3
 mkdir -p $OUT
@@ -7,8 +8,8 @@ CLONE=$(mktemp -d /var/tmp/sweep-repo.XXXXXX)
 rsync -a --exclude .git /repo/ $CLONE/
 export VERIF_REPO=$CLONE
 for s in "$@"; do
-  for i in 01 02 03 04 05 06 07 08 09 10 11 12 13 14 15 16 17 18 19 20; do
-    echo "C$i $s"
+  for id in ${IDS:-C01 C02 C03 C04 C05 C06 C07 C08 C09 C10 C11 C12 C13 C14 C15 C16 C17 C18 C19 C20}; do
+    echo "$id $s"
   done
 done | xargs -P $PAR -L 1 bash -c 'id=$0; s=$1; t0=$(date +%s); VERIF_SEED=$s /verif/check $id '$TIER' > '$OUT'/$id.$s.log 2>&1; rc=$?; echo "$id seed=$s rc=$rc $(( $(date +%s) - t0 ))s viol=$(grep -c ^VIOLATION '$OUT'/$id.$s.log)"'
 rm -rf $CLONE
